@@ -130,6 +130,8 @@ fn run_case(idx: usize, case: &Value, want_trace: bool, evs: &HashSet<String>) -
   let id = format!("case{idx}");
   let mut bo = BuildOpts::default();
   bo.max_redirects = case.get("maxRedirects").and_then(|v| v.as_u64()).map(|v| v as usize);
+  bo.is_dynamic = case["opts"]["isDynamic"].as_bool().unwrap_or(false);
+  bo.skip_dynamic = case["opts"]["skipDynamic"].as_bool().unwrap_or(false);
   for kind in ["all", "code", "types"] {
     let expected = norm_graph(&case["graphs"][kind]);
     let res = std::panic::catch_unwind(std::panic::AssertUnwindSafe(|| build(&world, kind_of(kind), &world.roots, &bo)));
@@ -185,7 +187,10 @@ fn run_case(idx: usize, case: &Value, want_trace: bool, evs: &HashSet<String>) -
       if kind == "all" && evs.contains("prune") {
         let mut p = g.clone();
         p.prune_types();
-        let c = build(&world, deno_graph::GraphKind::CodeOnly, &world.roots, &bo);
+        // "built code-only from the same roots and sources": configured type imports are configuration, not sources
+        let mut w_noimp = world.clone();
+        w_noimp.imports.clear();
+        let c = build(&w_noimp, deno_graph::GraphKind::CodeOnly, &world.roots, &bo);
         out.trace.push(json!({"ev": "prune", "pruned": graph_json(&world, &p), "code": graph_json(&world, &c),
           "validPruned": p.valid().is_ok(), "validCode": c.valid().is_ok()}));
       }
@@ -262,31 +267,48 @@ fn cmd_replay_core(args: &[String]) -> i32 {
     .collect();
   let evs = &evs;
   let threads: usize = arg(args, "--threads").map(|s| s.parse().unwrap()).unwrap_or(8);
-  let lines: Vec<String> = std::io::BufReader::new(std::fs::File::open(&cases_path).expect("cases"))
-    .lines()
-    .map(|l| l.unwrap())
-    .filter(|l| !l.trim().is_empty())
-    .collect();
-  let n = lines.len();
-  let chunk = n.div_ceil(threads.max(1)).max(1);
-  let mut results: Vec<(Vec<Value>, Vec<Value>, usize)> = vec![];
+  // cases are streamed (a thorough run has millions of them): worker i takes the lines whose index is i modulo the
+  // number of workers and writes the trace events of its cases to its own part file; the parts are concatenated
+  // afterwards (the events of one case stay contiguous, which is all the trace specification needs)
+  let threads = threads.max(1);
+  let mut results: Vec<(Vec<Value>, usize, usize, usize)> = vec![];
   std::thread::scope(|sc| {
     let mut hs = vec![];
-    for (ci, part) in lines.chunks(chunk).enumerate() {
+    for ci in 0..threads {
       let want = trace_path.is_some();
+      let cases_path = cases_path.clone();
+      let part_path = trace_path.as_ref().map(|p| format!("{p}.part{ci}"));
       hs.push(sc.spawn(move || {
         let mut mism = vec![];
-        let mut trace = vec![];
         let mut builds = 0;
-        for (j, l) in part.iter().enumerate() {
-          let idx = ci * chunk + j;
-          let case: Value = serde_json::from_str(l).expect("case json");
-          let o = run_case(idx, &case, want && idx % every == offset % every, evs);
+        let mut events = 0;
+        let mut seen = 0usize;
+        let mut pf = part_path.as_ref().map(|p| std::io::BufWriter::new(std::fs::File::create(p).unwrap()));
+        let mut idx = 0usize;
+        for l in std::io::BufReader::new(std::fs::File::open(&cases_path).expect("cases")).lines() {
+          let l = l.unwrap();
+          if l.trim().is_empty() {
+            continue;
+          }
+          let my = idx % threads == ci;
+          let this = idx;
+          idx += 1;
+          if !my {
+            continue;
+          }
+          seen = this + 1;
+          let case: Value = serde_json::from_str(&l).expect("case json");
+          let o = run_case(this, &case, want && this % every == offset % every, evs);
           mism.extend(o.mismatches);
-          trace.extend(o.trace);
           builds += o.builds;
+          if let Some(f) = pf.as_mut() {
+            for e in &o.trace {
+              writeln!(f, "{}", e).unwrap();
+            }
+          }
+          events += o.trace.len();
         }
-        (mism, trace, builds)
+        (mism, builds, events, seen.max(idx))
       }));
     }
     for h in hs {
@@ -296,16 +318,23 @@ fn cmd_replay_core(args: &[String]) -> i32 {
   let mut mism = vec![];
   let mut builds = 0;
   let mut events = 0;
-  let mut tf = trace_path.as_ref().map(|p| std::io::BufWriter::new(std::fs::File::create(p).unwrap()));
-  for (m, t, b) in results {
+  let mut n = 0;
+  for (m, b, e, cnt) in results {
     mism.extend(m);
     builds += b;
-    if let Some(f) = tf.as_mut() {
-      for e in &t {
-        writeln!(f, "{}", e).unwrap();
+    events += e;
+    n = n.max(cnt);
+  }
+  mism.sort_by_key(|m| m["case"].as_u64().unwrap_or(0));
+  if let Some(p) = trace_path.as_ref() {
+    let mut f = std::io::BufWriter::new(std::fs::File::create(p).unwrap());
+    for ci in 0..threads {
+      let part = format!("{p}.part{ci}");
+      if let Ok(mut r) = std::fs::File::open(&part) {
+        std::io::copy(&mut r, &mut f).unwrap();
       }
+      let _ = std::fs::remove_file(&part);
     }
-    events += t.len();
   }
   let res = json!({"cases": n, "builds": builds, "trace_events": events, "mismatches": mism});
   std::fs::write(&result_path, serde_json::to_string(&res).unwrap()).unwrap();
